@@ -273,6 +273,18 @@ def poll_recv(m, ch, label='recv'):
     s.register(ch.rx_waiters)
     return pending()
 
+@I.rx(r'^(tokio::sync::)?mpsc::(bounded::|unbounded::)?(Unbounded)?Receiver::try_recv$')
+def _mpsc_try_recv(m, args, ci):
+    """try_recv: Ok(v) if a value is queued, Err(Empty) / Err(Disconnected) otherwise; never suspends."""
+    ch = deref_val(args[0]).ch
+    s = sched(m)
+    if ch.q:
+        v = ch.q.pop(0)
+        s.wake(ch.tx_waiters)
+        m.event('mpsc_recv', s.cur, ch.label)
+        return ok(v)
+    return err(Adt('TryRecvError', 'Disconnected' if ch.senders == 0 else 'Empty', {}))
+
 @I.rx(r'^(tokio::sync::)?mpsc::channel$|^tokio::sync::mpsc::bounded::channel$')
 def _mpsc_channel(m, args, ci):
     cap = args[0]
